@@ -48,12 +48,17 @@ type fileRun struct {
 // readFile writes content to a scratch file and reads it back with SELECT * through parser, typechecker, optimiser and
 // the real datasource.
 func readFile(ext string, content []byte, opts string, buf int) fileRun {
+	return readFileSel(ext, content, opts, buf, "*")
+}
+
+// readFileSel: the same with a given select list (see selectList).
+func readFileSel(ext string, content []byte, opts string, buf int, sel string) fileRun {
 	path := scratchFile(ext)
 	if err := os.WriteFile(path, content, 0o644); err != nil {
 		panic(err)
 	}
 	defer os.Remove(path)
-	return readPath(path, opts, buf)
+	return readSQL("SELECT "+sel+" FROM `"+path+opts+"` t", buf)
 }
 
 func readPath(path string, opts string, buf int) fileRun {
@@ -151,6 +156,9 @@ type JSONCase struct {
 	EOL      string   `json:"eol"`
 	FinalEOL bool     `json:"final_eol"`
 	Buf      int      `json:"buf"`
+	// Cols: the columns that are read, in this order, each back-quoted (Qual[j]: written t.`col`); empty = SELECT *
+	Cols []string `json:"cols,omitempty"`
+	Qual []bool   `json:"qual,omitempty"`
 }
 
 func (c JSONCase) Line(i int) string {
@@ -287,7 +295,10 @@ func jsonKeyText(t *rapid.T, k string, label string) string {
 	return `"` + k + `"`
 }
 
-var jsonTopKeys = []string{"a", "b", "c", "d", "é", "A", "k 1"}
+// plain keys, and keys that contain dots (one, several, leading, trailing, doubled), several of them next to a key that
+// equals what follows one of their dots ("name" next to "user.name", "c" and "b.c" next to "a.b.c")
+var jsonTopKeys = []string{"a", "b", "c", "d", "é", "A", "k 1", "name",
+	"user.name", "a.b", "b.c", "a.b.c", "d.", ".a", "k 1.é", "x..y"}
 
 func genJSONCase(t *rapid.T) JSONCase {
 	nk := rapid.IntRange(1, 5).Draw(t, "nkeys")
@@ -306,11 +317,24 @@ func genJSONCase(t *rapid.T) JSONCase {
 	c.EOL = rapid.SampledFrom([]string{"\n", "\n", "\n", "\r\n"}).Draw(t, "eol")
 	c.FinalEOL = rapid.IntRange(0, 3).Draw(t, "final") > 0
 	c.Buf = rapid.SampledFrom(bufSizes).Draw(t, "buf")
+	// the columns to read: the keys that occur in the file
+	var present []string
+	for _, k := range append([]string{"seq"}, keys...) {
+		for i := 0; i < c.N && i < nt; i++ {
+			if m, err := model.DecodeJSONLine([]byte(c.Line(i))); err == nil {
+				if _, ok := m[k]; ok {
+					present = append(present, k)
+					break
+				}
+			}
+		}
+	}
+	c.Cols, c.Qual = drawSelection(t, present)
 	return c
 }
 
 func (r *c23) jsonProp(c JSONCase) ev.Outcome {
-	if len(c.Rows) == 0 || c.N < 0 {
+	if len(c.Rows) == 0 || c.N < 0 || (len(c.Cols) > 0 && len(c.Qual) != len(c.Cols)) {
 		return ev.Outcome{Discard: true}
 	}
 	content := c.Content()
@@ -333,7 +357,17 @@ func (r *c23) jsonProp(c JSONCase) ev.Outcome {
 		}
 		decoded[i] = m
 	}
-	fr := readFile("json", content, "", c.Buf)
+	for _, col := range c.Cols {
+		// only keys of the file can be selected (an unknown column is rejected, which is no wrong row)
+		found := false
+		for i := 0; i < c.N && i < len(c.Rows) && !found; i++ {
+			_, found = decoded[i][col]
+		}
+		if !found || strings.Contains(col, "`") {
+			return ev.Outcome{Discard: true}
+		}
+	}
+	fr := readFileSel("json", content, "", c.Buf, selectList(c.Cols, c.Qual))
 	if fr.Stage == "compile" && c.N == 0 {
 		// an empty file has no columns; rejecting `SELECT *` over it is not a wrong row
 		return ev.Outcome{Classes: append(classes, "json:empty_file_rejected")}
@@ -343,6 +377,11 @@ func (r *c23) jsonProp(c JSONCase) ev.Outcome {
 	}
 	if len(fr.Rows) != c.N {
 		return ev.Fail("JSON file with %d lines (first %q) returned %d records; schema %s", c.N, clip(string(content), 300), len(fr.Rows), schemaString(fr.Fields))
+	}
+	if len(c.Cols) > 0 {
+		if msg := sameColumns(fr.Fields, c.Cols); msg != "" {
+			return ev.Fail("JSON file (first %q) read with SELECT %s: %s", clip(string(content), 300), selectList(c.Cols, c.Qual), msg)
+		}
 	}
 	excluded := ""
 	for i, row := range fr.Rows {
@@ -366,6 +405,9 @@ func (r *c23) jsonProp(c JSONCase) ev.Outcome {
 		}
 		// every key of the line must be a column (the line was part of the preview)
 		for k := range decoded[i] {
+			if len(c.Cols) > 0 {
+				break
+			}
 			found := false
 			for _, f := range fr.Fields {
 				found = found || f.Name == k
@@ -391,7 +433,20 @@ func (r *c23) jsonProp(c JSONCase) ev.Outcome {
 	if c.N > 128*64 {
 		classes = append(classes, "json:more_batches_than_tokens")
 	}
-	return ev.Outcome{NonTrivial: c.N > 64, Classes: classes, Excluded: excluded, Key: fmt.Sprintf("json|%d|%v|%s|%v|%d|%s", c.N, c.Seq, c.EOL, c.FinalEOL, c.Buf, strings.Join(c.Rows, "\x00"))}
+	if c.N > 0 {
+		var all []string
+		seen := map[string]bool{}
+		for i := 0; i < c.N && i < len(c.Rows); i++ {
+			for k := range decoded[i] {
+				if !seen[k] {
+					seen[k] = true
+					all = append(all, k)
+				}
+			}
+		}
+		classes = append(classes, nameClasses("json:", fr.Fields, c.Cols, all)...)
+	}
+	return ev.Outcome{NonTrivial: c.N > 64, Classes: classes, Excluded: excluded, Key: fmt.Sprintf("json|%d|%v|%s|%v|%d|%s|%s|%v", c.N, c.Seq, c.EOL, c.FinalEOL, c.Buf, strings.Join(c.Rows, "\x00"), strings.Join(c.Cols, "\x00"), c.Qual)}
 }
 
 // classifyJSON attributes a deviating column value to a recorded finding, or returns "".
@@ -435,6 +490,9 @@ type CSVCase struct {
 	QuoteAll bool       `json:"quote_all"`
 	CRLF     bool       `json:"crlf"`
 	Buf      int        `json:"buf"`
+	// Cols: the columns that are read, in this order, each back-quoted (Qual[j]: written t.`col`); empty = SELECT *
+	Cols []string `json:"cols,omitempty"`
+	Qual []bool   `json:"qual,omitempty"`
 }
 
 func (c CSVCase) sep() rune {
@@ -486,7 +544,9 @@ var csvIntCells = []string{"0", "7", "-12", "007", "-0", "123456789012345678", "
 var csvFloatCells = []string{"1.5", "-0.25", "100.0", "0.1", "1e3", "12345.678", "0.000001", "-2.50", "9223372036854775808", "3.0"}
 var csvBoolCells = []string{"true", "false", "TRUE", "False", "t", "F"}
 var csvTimeCells = []string{"2020-01-02T03:04:05Z", "2020-01-02T03:04:05.123456789+01:00", "1999-12-31T23:59:59.5-07:00"}
-var csvHeaderNames = []string{"a", "b", "c", "d", "x y", "é", "A", "col,1", "n\"q", "1"}
+// plain names, and names that contain dots, several of them next to a name that equals what follows one of their dots
+var csvHeaderNames = []string{"a", "b", "c", "d", "x y", "é", "A", "col,1", "n\"q", "1", "city",
+	"addr.city", "a.b", "b.c", "a.b.c", "d.", ".a", "x y.é", "x..y", "v1.1"}
 
 func genCSVCell(t *rapid.T, kind string, label string) string {
 	switch kind {
@@ -540,11 +600,26 @@ func genCSVCase(t *rapid.T) CSVCase {
 	}
 	c.N = drawN(t, nt, false)
 	c.Buf = rapid.SampledFrom(bufSizes).Draw(t, "buf")
+	if !(c.N == 0 && c.NoHeader) {
+		c.Cols, c.Qual = drawSelection(t, c.columnNames())
+	}
 	return c
 }
 
+// columnNames: the header, or column_0, column_1, ... for a file without one.
+func (c CSVCase) columnNames() []string {
+	if !c.NoHeader {
+		return c.Header
+	}
+	names := make([]string, len(c.Header))
+	for j := range names {
+		names[j] = fmt.Sprintf("column_%d", j)
+	}
+	return names
+}
+
 func (r *c23) csvProp(c CSVCase) ev.Outcome {
-	if len(c.Rows) == 0 || len(c.Header) == 0 || (c.Ext != "csv" && c.Ext != "tsv") {
+	if len(c.Rows) == 0 || len(c.Header) == 0 || (c.Ext != "csv" && c.Ext != "tsv") || (len(c.Cols) > 0 && len(c.Qual) != len(c.Cols)) {
 		return ev.Outcome{Discard: true}
 	}
 	content := c.Content()
@@ -568,16 +643,33 @@ func (r *c23) csvProp(c CSVCase) ev.Outcome {
 	}
 	classes := []string{rowsClass(c.Ext+":", c.N)}
 	opts := ""
-	names := c.Header
+	names := c.columnNames()
 	if c.NoHeader {
 		opts = "?header=false"
-		names = make([]string, len(c.Header))
-		for j := range names {
-			names[j] = fmt.Sprintf("column_%d", j)
-		}
 		classes = append(classes, "csv:header=false")
 	}
-	fr := readFile(c.Ext, content, opts, c.Buf)
+	// at[j]: which column of the file is read into output column j
+	at := make([]int, len(names))
+	for j := range at {
+		at[j] = j
+	}
+	if len(c.Cols) > 0 {
+		at = at[:0]
+		for _, col := range c.Cols {
+			k := -1
+			for j, n := range names {
+				if n == col {
+					k = j
+				}
+			}
+			if k < 0 || strings.Contains(col, "`") {
+				return ev.Outcome{Discard: true} // only columns of the file can be selected
+			}
+			at = append(at, k)
+		}
+		names = c.Cols
+	}
+	fr := readFileSel(c.Ext, content, opts, c.Buf, selectList(c.Cols, c.Qual))
 	if fr.Stage == "compile" && c.N == 0 && c.NoHeader {
 		return ev.Outcome{Classes: append(classes, "csv:empty_file_rejected")}
 	}
@@ -599,13 +691,17 @@ func (r *c23) csvProp(c CSVCase) ev.Outcome {
 		}
 	}
 	for i, row := range fr.Rows {
-		cells := c.Rows[i%len(c.Rows)]
+		all := c.Rows[i%len(c.Rows)]
+		cells := make([]string, len(at))
+		for j := range at {
+			cells[j] = all[at[j]]
+		}
 		if len(row) != len(cells) {
-			return ev.Fail("record %d has %d values, the row %d cells", i, len(row), len(cells))
+			return ev.Fail("%s file %q read with SELECT %s: record %d has %d values %s, want the %d cells %q", c.Ext, clip(string(content), 300), selectList(c.Cols, c.Qual), i, len(row), rowString(row), len(cells), cells)
 		}
 		for j := range cells {
 			if msg := model.CSVCheck(fr.Fields[j].Type, cells[j], row[j]); msg != "" {
-				return ev.Fail("%s data row %d %q, column %s %s: %s; whole record %s", c.Ext, i, cells, fr.Fields[j].Name, fr.Fields[j].Type.String(), msg, rowString(row))
+				return ev.Fail("%s data row %d %q (read with SELECT %s), column %s %s: %s; whole record %s", c.Ext, i, all, selectList(c.Cols, c.Qual), fr.Fields[j].Name, fr.Fields[j].Type.String(), msg, rowString(row))
 			}
 		}
 	}
@@ -622,6 +718,9 @@ func (r *c23) csvProp(c CSVCase) ev.Outcome {
 				break
 			}
 		}
+	}
+	if c.N > 0 {
+		classes = append(classes, nameClasses("csv:", fr.Fields, c.Cols, c.columnNames())...)
 	}
 	return ev.Outcome{NonTrivial: nt, Classes: classes}
 }
@@ -665,7 +764,8 @@ func (c LinesCase) Content() []byte {
 	return b.Bytes()
 }
 
-var lineSeps = []string{"", "\n", ",", "ab", "\r\n", "||", "é", "\t", "::", "aab"}
+// the last seven begin or end with (or are nothing but) blanks: the separator is the option's value exactly as written
+var lineSeps = []string{"", "\n", ",", "ab", "\r\n", "||", "é", "\t", "::", "aab", " | ", ", ", " ", "  ", "| ", " ,", "a "}
 var linePieceRunes = []rune("abxy|:,é漢 \t01")
 
 // buggySplit replays the split function of datasources/lines on the whole content (classifier use only): after a
@@ -732,6 +832,13 @@ func (r *c23) linesProp(c LinesCase) ev.Outcome {
 		opts = "?sep=" + c.Sep
 	}
 	classes := []string{rowsClass("lines:", len(want)), fmt.Sprintf("lines:sep=%q", c.Sep)}
+	if c.Sep != strings.Trim(c.Sep, " ") && len(want) > 1 {
+		if strings.Trim(c.Sep, " ") == "" {
+			classes = append(classes, "lines:sep_only_blanks,>1_row")
+		} else {
+			classes = append(classes, "lines:sep_with_leading_or_trailing_blank,>1_row")
+		}
+	}
 	longest := 0
 	for _, w := range want {
 		if len(w) > longest {
@@ -836,14 +943,14 @@ type c23 struct{ rec *ev.Rec }
 
 func TestC23(t *testing.T) {
 	rec := ev.New("C23", "exploration",
-		"json_rows: JSON-lines files built from 1-8 generated template objects (1-5 top-level keys with a preferred kind each, values null/number/string/bool/array/object to depth 2, "+
+		"json_rows: JSON-lines files built from 1-8 generated template objects (1-5 top-level keys with a preferred kind each, drawn from plain keys and keys with one or several dots - user.name, a.b, b.c, a.b.c, 'd.', '.a', 'k 1.é', x..y - so that a dotted key also stands next to the key that follows one of its dots; values null/number/string/bool/array/object to depth 2, "+
 			"escapes \\\" \\\\ \\/ \\b \\f \\n \\r \\t \\uXXXX incl. surrogate pairs and \\u0000, multibyte runes, RFC3339 strings, missing keys, explicit nulls, free whitespace, LF/CRLF, with/without final newline), "+
 			"line i = template i mod k optionally carrying \"seq\":i, row counts 0/1/63/64/65/100/101/127-129/192/200/130-3000/8191-8320, reader buffer 16 B/64 B/4 KiB/4 MiB, "+
-			"read with SELECT * through parser, typechecker, optimiser and datasources/json under GOMAXPROCS=4 workers with VERIF_JSON_DELAY_SEED delaying each parse batch 0-3 ms; "+
+			"read with SELECT * or (half of the files) a drawn list of 1..all back-quoted keys in drawn order, bare or t.-qualified (the output must be exactly those columns in that order), through parser, typechecker, optimiser and datasources/json under GOMAXPROCS=4 workers with VERIF_JSON_DELAY_SEED delaying each parse batch 0-3 ms; "+
 			"oracle = encoding/json(UseNumber) decode of each line under the reported column types: one record per line in file order, numbers bit-equal to strconv.ParseFloat, strings equal (or Time with the same instant), null/missing = NULL. non-trivial: more than one 64-line batch. "+
-			"csv_rows: CSV/TSV written with encoding/csv or all-quoted (embedded separators, quotes, newlines, CRLF, header=false), cells of canonical int/float/bool/RFC3339/string/empty kinds, kept only if encoding/csv reads the generated matrix back; "+
+			"csv_rows: CSV/TSV written with encoding/csv or all-quoted (embedded separators, quotes, newlines, CRLF, header=false), header names with spaces, commas, quotes and with one or several dots (addr.city next to city, a.b.c next to b.c and c, 'd.', '.a', v1.1), read with SELECT * or a drawn back-quoted column list as for JSON, cells of canonical int/float/bool/RFC3339/string/empty kinds, kept only if encoding/csv reads the generated matrix back; "+
 			"each cell must come out as NULL (empty) or as an admitted kind whose value is strconv's for the text or the text itself. non-trivial: a quoted field. "+
-			"lines_rows: pieces over an alphabet containing separator fragments joined by sep in {default, \\n, ',', ab, \\r\\n, ||, é, \\t, ::, aab}, with/without trailing separator, rare rows of 4 KiB/64 KiB; oracle = strings.Split (final empty piece is no row), number = 0,1,2... non-trivial: multi-byte separator and >1 row. "+
+			"lines_rows: pieces over an alphabet containing separator fragments joined by sep in {default, \\n, ',', ab, \\r\\n, ||, é, \\t, ::, aab, ' | ', ', ', ' ', '  ', '| ', ' ,', 'a '} written into the ?sep= option as is (the last seven begin/end with or are only blanks), with/without trailing separator, rare rows of 4 KiB/64 KiB; oracle = strings.Split at exactly that separator (final empty piece is no row), number = 0,1,2... non-trivial: multi-byte separator and >1 row. "+
 			"parquet_rows: four fixed shapes (flat int64/int32/double/float/bool/string; optional fields; required and optional nested groups; repeated string, LIST-annotated int64 list, repeated group with an optional member) with generated rows (edge ints/floats incl. NaN/-0/Inf, empty/multibyte/NUL strings, empty lists, absent optionals), 1-1500 rows in row groups of 1/2/7/64/100/all rows, read with SELECT * or a drawn column subset in drawn order; "+
 			"the pinned parquet-go fork has struct deconstruction disabled, so rows are shredded by hand into (value, repetition, definition, column) and written with Writer.WriteRow; oracle = the generated logical values under the reported types (a LIST-annotated group accepted as list or in its physical {list:[{element}]} form). non-trivial: not the flat shape, or several row groups. "+
 			"cli_rows: the real binary with -o json reading stdin.json / json.stdin / stdin.csv / stdin.tsv / stdin.lines / lines.stdin (and data.json as a file) of exactly 0..300000 bytes around 4 KiB, 8 KiB, 64 KiB, 128 KiB, row widths 1-30000, with/without final newline, under GOMAXPROCS 1/2/4/16 and JSON delay seeds; every printed row compared with the generated one. non-trivial: input longer than 4 KiB or 100 rows (the schema preview), file: more than one batch.",
